@@ -653,6 +653,14 @@ class Verifier(Interp):
         return self.coerce(v, ty)
 
     def call_by_contract(self, fi, con, bound, node):
+        saved_module = self.module
+        self.module = fi.module          # contract clauses are read in the callee's module
+        try:
+            return self._call_by_contract(fi, con, bound, node)
+        finally:
+            self.module = saved_module
+
+    def _call_by_contract(self, fi, con, bound, node):
         callee = con.short
         env = self.typed_bind(con, bound)
         if con.record:
@@ -819,6 +827,14 @@ class Verifier(Interp):
                              "cell.bidict")
         if ty.kind == "set" and isinstance(v, Ref) and v.ty.kind == "setcell":
             return self.st.heap[v.rid]
+        if ty.kind == "set" and isinstance(v, Conc) and isinstance(v.v, (set, frozenset, list, tuple)):
+            from contracts.externals import _set_term
+            if isinstance(v.v, (set, frozenset)) and len(v.v) > 50:
+                return _set_term(self, v)
+            arr = z3.K(sort_of(ty.args[0]), z3.BoolVal(False))
+            for x in v.v:
+                arr = z3.Store(arr, self.term(Conc(x), ty.args[0]), True)
+            return P(ty, arr)
         if ty.kind == "setcell":
             return v
         if ty.kind == "list":
@@ -949,7 +965,8 @@ class Verifier(Interp):
                             out.add(t.value.id)
         return out
 
-    def havoc_local_cells(self, names):
+    def havoc_local_cells(self, names, cell_types=None):
+        cell_types = cell_types or {}
         for v in sorted(names):
             val = self.st.vars.get(v)
             if isinstance(val, OptV):
@@ -958,7 +975,11 @@ class Verifier(Interp):
                 continue
             old = self.st.heap[val.rid]
             if isinstance(old, Special) and old.tag in ("emptyset", "anyset"):
-                self.st.heap[val.rid] = Special("anyset")
+                if v in cell_types:
+                    st_ = SetT(cell_types[v])
+                    self.st.heap[val.rid] = P(st_, z3.Const(self.fresh_name("hv." + v), sort_of(st_)))
+                else:
+                    self.st.heap[val.rid] = Special("anyset")
             elif isinstance(old, P) and old.ty.kind == "set":
                 self.st.heap[val.rid] = P(old.ty, z3.Const(self.fresh_name("hv." + v), sort_of(old.ty)))
             elif isinstance(old, (P, MapV, BimapV)):
@@ -1016,6 +1037,13 @@ class Verifier(Interp):
                         raise RaiseSig("UnicodeDecodeError")
                 return P(STR, _l.term[k])
             return z3.Length(lines.term), at_line
+        if isinstance(c, P) and c.ty.kind == "set":
+            class _M:
+                pass
+            m = _M()
+            m.dom, m.kt, m.size = c.term, c.ty.args[0], None
+            E = self.map_enum(m)
+            return z3.Length(E), (lambda k: P(c.ty.args[0], E[k]))
         if isinstance(c, Special) and c.tag == "mapitems":
             E = self.map_enum(c.m)
             return z3.Length(E), (lambda k: TupV([P(c.m.kt, E[k]), P(c.m.vt, z3.Select(c.m.val, E[k]))]))
@@ -1096,7 +1124,8 @@ class Verifier(Interp):
         self.st.calls = saved_calls
         # --- havoc
         mods = self.assigned_names(s.body) | set(inv.modifies)
-        self.havoc_local_cells(self.mutated_cells(s.body) - set(x.split(".")[0] for x in inv.heap_modifies))
+        self.havoc_local_cells(self.mutated_cells(s.body) - set(x.split(".")[0] for x in inv.heap_modifies),
+                               inv.cell_types)
         pre_vars = dict(self.st.vars)
         for v in sorted(mods):
             if v in self.st.vars:
